@@ -11,4 +11,4 @@ Separate Extraction Z.add Z.mul Z.opp Z.sub Z.div_eucl Z.of_nat Z.to_nat Z.of_N 
   Updater.urun Updater.lives Updater.u_init Updater.msg_class
   Cli.cli_ppb Cli.cli_ppb_wrapping Cli.refid_of Poller.poll_run Poller.poller_init
   Layout.encode_header Layout.encode_ceb Layout.decode_header Layout.decode_ceb Open.reader_open Open.after_first_publication Open.pad_to
-  Machine.m_run_std Machine.m_init Machine.mem_of Machine.safe_cfg Machine.fixed_cfg Machine.unfenced_cfg N.of_nat N.to_nat.
+  Machine.m_run_std Machine.m_run_const Machine.m_init Machine.mem_of Machine.safe_cfg Machine.fixed_cfg Machine.unfenced_cfg N.of_nat N.to_nat.
